@@ -18,12 +18,25 @@ ASSUMPTIONS = ["floating point rounding below 1e-9 is not observable",
                "knot vectors are clamped with interior multiplicities <= degree",
                "listed knots and all bisection midpoints either coincide exactly with a knot or stay 1e-6 away from every knot",
                "explicit knot lists lie inside the knot-vector domain and contain at least two distinct values"]
-THEOREM_NOTES = "see coq/Props/C05.v"
-LEVEL_TEXT = ("Coq theorems about the executable Gallina model of helpers.knot_refinement / operations.refine_knotvector; see Props/C05.v for "
-              "the list with [G]/[B]/partial tags.  The shape-preservation of A5.4 itself is tied to repeated single knot insertion (C04, proved "
-              "in general) by the correspondence check and the exact oracle, and proved only in bounded form.")
-LEVEL_NOTE = "The model is tied to /repo by the sampled correspondence check (tolerance 1e-9)."
-TECHNIQUE = "Coq proof + Gallina model executed by vm_compute against geomdl outputs + exact Fraction oracle"
+THEOREM_NOTES = ("coq/Props/C05.v: [G] density_bisects_every_interval, density_list_length, untouched_directions_curve/surface/volume, "
+                 "density0_rejected; [B, one inserted knot, all degrees] refine_one_knot_spec_X1, refine_preserves_curve_X1; "
+                 "C05_refine_preserves_curve_full is stated as a Definition and NOT proved")
+LEVEL_TEXT = ("Proof (Coq, reals) about the executable Gallina model of helpers.knot_refinement (A5.4 with density bisection, knot_list, "
+              "add_knot_list) and operations.refine_knotvector, which describes the code WITH the repair fixes/C05-refinement-span-count.diff. "
+              "General [G]: density d puts exactly the points l_i + j/2^d (l_{i+1}-l_i) between consecutive listed knots (every interval bisected "
+              "d times) and the list has (n-1) 2^d + 1 entries; directions with density 0 keep knot vector and size, degrees never change, nothing "
+              "selected = object unchanged (curves, surfaces, volumes, every parameter list); density 0 is rejected. Bounded [B], bound = ONE knot "
+              "to insert, all degrees, all sorted knot vectors: A5.4 returns the knot vector with x in sorted position and Boehm's control points "
+              "and leaves every curve point unchanged. NOT proved in Coq, tied to the code by the correspondence check and the exact oracle only: "
+              "shape preservation and the sorted-merge form of the refined knot vector for more than one inserted knot (the normal case), the "
+              "multiplicity-equals-degree statement, the surface/volume gather-scatter of refine_knotvector.")
+LEVEL_NOTE = ("Trusted: Coq 8.16.1 kernel incl. vm_compute; standard-library axioms of Reals as printed by Print Assumptions; the hand-written "
+              "model's fidelity is sampled by the correspondence check on every run (helper with default / explicit / additional knot lists, points "
+              "and rows, density 1..3; refine_knotvector on curve/surface/volume x rational x all direction subsets; 1e-9 tolerance); the exact "
+              "Fraction oracle checks the property statement (same points on a grid with all old and new knots, d-fold bisection, interior "
+              "multiplicities = degree, untouched directions) on every case; floating-point rounding is modelled as exact.")
+TECHNIQUE = ("Coq proof (loop invariants of A5.4 over functional arrays for one inserted knot, Boehm's identity; induction on the density) on a "
+             "Gallina model executed by vm_compute against geomdl outputs + exact Fraction before/after oracle")
 
 
 def bisect_exact(vals, d):
